@@ -876,3 +876,102 @@ proof fn lemma_mul_init(a: Seq<u64>, b: Seq<u64>, n: int)
     lemma_pow2_pos(64 * n as nat);
     vstd::arithmetic::div_mod::lemma_small_mod(0, pow2(64 * n as nat));
 }
+
+// ---- value-level reading of the masking helpers -------------------------------------------------
+proof fn lemma_word_split(x: u64, r: u64)
+    requires r < 64
+    ensures x as int == (x & lowmask(r)) as int + ((x >> r) as int) * pow2(r as nat),
+            ((x & lowmask(r)) as int) < pow2(r as nat),
+{
+    lemma_lowmask_val(r);
+    let m = lowmask(r);
+    let p = 1u64 << r;
+    assert(1u64 << r >= 1) by (bit_vector) requires r < 64;
+    assert(x == (x & (((1u64 << r) - 1) as u64)) + (x >> r) * (1u64 << r)) by (bit_vector) requires r < 64;
+    assert(x & m <= m) by (bit_vector);
+}
+
+/// t == s with everything at and above bit w cleared (word by word)  ==>  value(t) == value(s) mod 2^w
+proof fn lemma_masked_value(s: Seq<u64>, t: Seq<u64>, w: int)
+    requires s.len() == t.len(), 0 <= w, forall|k: int| 0 <= k < s.len() ==> t[k] == masked_word(s[k], k, w)
+    ensures w >= 64 * s.len() ==> valp(t, s.len() as int) == valp(s, s.len() as int),
+            w < 64 * s.len() ==> valp(t, s.len() as int) as int == (valp(s, s.len() as int) as int) % (pow2(w as nat) as int),
+{
+    let n = s.len() as int;
+    if w >= 64 * n {
+        lemma_valp_ext(t, s, n);
+    } else {
+        let q = w / 64;
+        let r = (w % 64) as u64;
+        lemma_valp_ext(t, s, q);
+        lemma_valp_high_zero(t, q + 1, n);
+        lemma_valp_split(s, q + 1, n);
+        lemma_word_split(s[q], r);
+        lemma_valp_bound(s, q);
+        lemma_pow2_step(q);
+        lemma_pow2_adds(64 * q as nat, r as nat);
+        assert(64 * q as nat + r as nat == w as nat);
+        lemma_lowmask_val(r);
+        let x = s[q];
+        let lo = (x & lowmask(r)) as int;
+        let hi = (x >> r) as int;
+        assert(t[q] as int == lo) by {
+            if r == 0 { assert(x & (((1u64 << 0u64) - 1) as u64) == 0) by (bit_vector); }
+        }
+        let pq = pow2(64 * q as nat) as int;
+        let pr = pow2(r as nat) as int;
+        let pw = pow2(w as nat) as int;
+        let h = vhi(s, q + 1, n) as int;
+        let xv = valp(t, n) as int;
+        assert(xv == valp(s, q) + lo * pq);
+        assert(valp(s, n) == valp(s, q) + (x as int) * pq + (pq * 0x1_0000_0000_0000_0000) * h);
+        // 2^64 == 2^r * 2^(64-r)
+        lemma_pow2_adds(r as nat, (64 - r) as nat);
+        lemma_pow2_64();
+        let ps = pow2((64 - r) as nat) as int;
+        assert(pr * ps == 0x1_0000_0000_0000_0000);
+        let c = hi + ps * h;
+        assert(xv + c * pw == valp(s, n)) by (nonlinear_arith)
+            requires xv == valp(s, q) + lo * pq, valp(s, n) == valp(s, q) + (x as int) * pq + (pq * 0x1_0000_0000_0000_0000) * h,
+                     x as int == lo + hi * pr, pw == pq * pr, pr * ps == 0x1_0000_0000_0000_0000, c == hi + ps * h;
+        assert(xv < pw) by (nonlinear_arith)
+            requires xv == valp(s, q) + lo * pq, valp(s, q) < pq, lo + 1 <= pr, pw == pq * pr, 0 <= valp(s, q);
+        lemma_mod_unique(xv, valp(s, n) as int, c, pw);
+    }
+}
+
+proof fn lemma_valp_all_ones(s: Seq<u64>, k: int)
+    requires 0 <= k <= s.len(), forall|i: int| 0 <= i < k ==> s[i] == 0xffff_ffff_ffff_ffffu64
+    ensures valp(s, k) + 1 == pow2(64 * k as nat)
+    decreases k
+{
+    if k > 0 {
+        lemma_valp_all_ones(s, k - 1);
+        lemma_pow2_step(k - 1);
+        assert(0xffff_ffff_ffff_ffffnat * pow2(64 * (k - 1) as nat) + pow2(64 * (k - 1) as nat) == pow2(64 * (k - 1) as nat) * 0x1_0000_0000_0000_0000nat) by (nonlinear_arith);
+    } else {
+        lemma_pow2_64();
+    }
+}
+
+/// the all-ones pattern below w:  value == 2^min(w, 64n) - 1
+proof fn lemma_ones_value(t: Seq<u64>, w: int)
+    requires 0 <= w, forall|k: int| 0 <= k < t.len() ==> t[k] == masked_word(0xffff_ffff_ffff_ffffu64, k, w)
+    ensures valp(t, t.len() as int) + 1 == pow2((if w < 64 * t.len() { w } else { 64 * t.len() as int }) as nat)
+{
+    let n = t.len() as int;
+    let s = Seq::new(t.len(), |k: int| 0xffff_ffff_ffff_ffffu64);
+    lemma_masked_value(s, t, w);
+    lemma_valp_all_ones(s, n);
+    if w < 64 * n {
+        // (2^(64n) - 1) mod 2^w == 2^w - 1
+        let pw = pow2(w as nat) as int;
+        let d = pow2((64 * n - w) as nat) as int;
+        lemma_pow2_adds(w as nat, (64 * n - w) as nat);
+        assert(w as nat + (64 * n - w) as nat == 64 * n as nat);
+        lemma_pow2_pos(w as nat);
+        lemma_pow2_pos((64 * n - w) as nat);
+        assert((pw - 1) + (d - 1) * pw == pw * d - 1) by (nonlinear_arith);
+        lemma_mod_unique(pw - 1, valp(s, n) as int, d - 1, pw);
+    }
+}
